@@ -2,6 +2,7 @@ package otto
 
 import (
 	"reflect"
+	goruntime "runtime"
 )
 
 func (rt *runtime) newGoMapObject(value reflect.Value) *object {
@@ -29,7 +30,20 @@ func newGoMapObject(value reflect.Value) *goMapObject {
 	}
 }
 
-func (o goMapObject) toKey(name string) (reflect.Value, error) {
+func (o goMapObject) toKey(name string) (key reflect.Value, err error) {
+	// stringToReflectValue panics for key kinds no property name can denote
+	// (interface, struct, pointer, ...): here that just means "not a key".
+	defer func() {
+		if caught := recover(); caught != nil {
+			if _, isRuntime := caught.(goruntime.Error); !isRuntime {
+				if cerr, ok := caught.(error); ok {
+					err = cerr
+					return
+				}
+			}
+			panic(caught)
+		}
+	}()
 	return stringToReflectValue(name, o.keyType.Kind())
 }
 
@@ -52,7 +66,7 @@ func goMapGetOwnProperty(obj *object, name string) *property {
 	// being possible to represent as a string, 2) being possible to reconstruct
 	// from a string, and 3) having a meaningful failure case in this context
 	// other than "key does not exist"
-	key, err := stringToReflectValue(name, goObj.keyType.Kind())
+	key, err := goObj.toKey(name)
 	if err != nil {
 		return nil
 	}
